@@ -24,7 +24,23 @@ GROUPS = {
                 modpath="state::verif_c02", crate=CORE),
     "c15": dict(file="c15.rs", into="weechess-engine/src/searcher.rs", scope=None, mod="verif_c15", pub=False,
                 modpath="searcher::verif_c15", crate=ENGINE),
+    "c08": dict(file="c08.rs", into="weechess-core/src/hasher.rs", scope=None, mod="verif_c08", pub=True,
+                modpath="hasher::verif_c08", crate=CORE),
+    "c05": dict(file="c05.rs", into="weechess-engine/src/eval/mod.rs", scope=None, mod="verif_c05", pub=False,
+                modpath="eval::verif_c05", crate=ENGINE),
+    "c12": dict(file="c12.rs", into="weechess-core/src/notation.rs", scope=None, mod="verif_c12", pub=True,
+                modpath="notation::verif_c12", crate=CORE),
+    "c14": dict(file="c14.rs", into="weechess-core/src/notation.rs", scope="mod fen", mod="verif_c14", pub=True,
+                modpath="notation::fen::verif_c14", crate=CORE),
+    "uci": dict(file="c12_uci.rs", into="weechess-engine/src/uci.rs", scope=None, mod="verif_uci", pub=False,
+                modpath="uci::verif_uci", crate=ENGINE),
 }
+
+# closure bodies extracted verbatim into a function so that they can be put under contract
+EXTRACTS = [
+    dict(file="weechess-engine/src/uci.rs", marker=".filter_map(|m| {", out="uci_extracted.rs",
+         header="pub fn uci_move_token(m: &&str) -> Option<MoveQuery> {"),
+]
 
 C20M = "crate::moves::verif_c20::"
 
@@ -153,6 +169,125 @@ PROPS["C02"] = dict(
                "castling right implies king and rook at home, clocks < usize::MAX. Trusted: Kani/CBMC, the mailbox spec.",
 )
 
+H = ["ZobristHasher::hash"]
+PROPS["C08"] = dict(
+    obligations=[
+        K("c08", "c08_components_formula", desc="empty board: hash == turn key ^ keys of held castling rights ^ ep file key; "
+          "fully symbolic key tables, side, rights, ep, clocks", functions=H),
+    ] + [
+        K("c08", "c08_clocks_do_not_matter", kind="bounded", bound="placement: the two kings at home", desc="same placement, side, "
+          "rights, ep => equal hash for arbitrary (different) clocks", functions=H, timeout=1500),
+        K("c08", "c08_separates_castling_rights", desc="positions differing in exactly one castling right differ by exactly "
+          "that right's key (so differently unless the key is 0)", functions=H),
+        K("c08", "c08_separates_en_passant_white", kind="bounded", bound="one concrete placement (pawns d5 e5 f5), symbolic rights and keys",
+          desc="en-passant capture available vs. not, and the two target files, differ by exactly the ep file keys", functions=H),
+        K("c08", "c08_separates_en_passant_black", kind="bounded", bound="one concrete placement (pawns d4 e4 f4), symbolic rights and keys",
+          desc="same, Black to move", functions=H),
+        K("c08", "c08_separates_side_to_move", desc="side to move separated unless the two turn keys coincide", functions=H),
+        K("c08", "c08_with_fills_every_cell", desc="ZobristHasher::with draws every one of the 1038 cells from its own "
+          "next_u64 call (counting RNG: all cells distinct and non-zero, exactly 1038 draws)", functions=["ZobristHasher::with"]),
+    ],
+    assumptions=[
+        "'differ up to 64-bit chance' is stated structurally: the hashes of two positions differ by exactly the XOR of the keys "
+        "of their symmetric difference, a non-empty set of distinct table cells each drawn independently by with(rng); that "
+        "such a XOR of random keys is non-zero with probability 1 - 2^-64 is arithmetic, not code",
+        "the placement formula for an ARBITRARY base position is not proved (CBMC exhausted 12 GB with symbolic and with constant "
+        "key tables); it is checked for the base positions {empty, initial position} plus one or two symbolic pieces (bounded "
+        "stand-ins, listed separately); the twelve per-piece loops of hash are independent of each other by inspection",
+    ],
+    technique="Kani/CBMC: structural contract of ZobristHasher::hash (XOR-homomorphism over fully symbolic key tables)",
+    level_text="Proof of structure: for fully symbolic key tables the hash is shown to be the XOR of one table cell per piece, "
+               "the turn key, one key per held castling right and the en-passant file key (empty-board formula + one-piece "
+               "homomorphism step, composed by induction on the number of pieces), clocks are shown irrelevant, and with(rng) "
+               "is shown to draw every cell separately. Equality and separation in the property follow.",
+    level_note="Separation is 'up to 64-bit chance' by nature; stated structurally. Piece count per kind is bounded per "
+               "obligation (stated in each). Trusted: Kani/CBMC, a size-checked transmute in the harness to obtain a symbolic "
+               "nested key table without a loop.",
+)
+
+PROPS["C05"] = dict(
+    obligations=[
+        K("c05", "c05_mate_in_ply_contract", desc="for ALL usize plies: no overflow, >= POS_INF, terminal, negation <= NEG_INF, "
+          "non-increasing in ply", functions=["Evaluation::mate_in_ply", "Evaluation::{add,mul,neg}"]),
+        K("c05", "c05_is_terminal_contract", desc="is_terminal(x) <=> |x| >= 10000, for all i32", functions=["Evaluation::is_terminal"]),
+        K("c05", "c05_evaluate_decision_logic", desc="Evaluator::evaluate with the move generator, try_as_legal_move and the attack "
+          "set replaced by their contracts (an oracle for 'has a legal move') and abstract in-range terms: no legal move & in "
+          "check => -/+ mate_in_ply(depth) by perspective; no legal move & not in check => exactly 0; otherwise non-terminal",
+          functions=["Evaluator::evaluate", "State::is_check", "Board::is_check"], timeout=1500),
+        K("c05", "c05_default_terms_are_the_four_evaluators", desc="Evaluator::default() uses EVALUATORS with weights 1.0/0.8/1.0/0.2",
+          functions=["Evaluator::default"]),
+    ],
+    assumptions=[],
+    assumed_contracts=["MoveGenerator::compute_legal_moves is empty exactly when there is no legal move (C01)",
+                       "PseudoLegalMove::try_as_legal_move returns Some only for a legal move (C01/K4)",
+                       "Board::colored_attacks is the attacked-square set (C10)",
+                       "each weighted evaluation term difference lies within +-1000 (abstract terms)"],
+    technique="Kani/CBMC: contract of Evaluation::mate_in_ply over all usize; Evaluator::evaluate checked against the "
+              "contracts of its callees (move-generator oracle) with abstract evaluation terms",
+    level_text="Proof: mate_in_ply is decided for every usize ply (no overflow, >= threshold, monotone); the evaluator's "
+               "checkmate / stalemate / otherwise decision is executed symbolically with the move generator, the legality "
+               "filter and the attack set replaced by their contracts, for symbolic king placement, side, perspective, depth.",
+    level_note="Assumes the callee contracts (C01, C10) and that each weighted term difference stays within +-1000; the range "
+               "of the REAL terms for extreme material (>= 100 pawn units) is not claimed. Trusted: Kani/CBMC, stubs.",
+)
+
+SAN = ["<San as TryFromNotation<MoveQuery>>::try_from_notation"]
+PROPS["C12"] = dict(
+    obligations=[
+        K("c12", "c12_san_parser_inverts_spelling", desc="for every admissible SAN field tuple (piece letter or none, optional "
+          "origin file/rank, optional x, destination, promotion with or without '=', optional +/#) the real parser returns "
+          "a query with exactly those fields set (piece defaults to Pawn) and no other", functions=SAN, timeout=1500),
+        K("c12", "c12_san_castles", desc="O-O / O-O-O with optional +/# parse to the castle query and nothing else", functions=SAN),
+        K("c12", "c12_move_query_test_contract", desc="MoveQuery::test(m) <=> every set field agrees with m (promotion compared "
+          "with promotion().unwrap_or(piece())), symbolic query x symbolic move", functions=["MoveQuery::test"]),
+        K("c12", "c12_coordinate_query_contract", desc="a query built from origin/destination(/promotion) matches exactly the "
+          "moves with those coordinates", functions=["MoveQuery::{new,set_origin,set_destination,set_promotion,by_moving_from_to,test}"]),
+        K("c12", "c12_lan_writer_contract", desc="Lan writes origin, destination and the lower-case promotion letter, for every "
+          "move value, through core::fmt", functions=["<Lan as IntoNotation<Move>>::into_notation", "Display for Square/File/Rank"],
+          timeout=1500),
+        K("uci", "c12_uci_reader_inverts_lan", desc="the UCI move-token reader (closure body extracted verbatim from Client::exec) "
+          "applied to the coordinate text of any move value returns the query with exactly that origin, destination and "
+          "promotion, which matches the move", functions=["Client::exec move-token closure (extracted)"], timeout=1500),
+    ],
+    assumptions=[],
+    technique="Kani/CBMC: SAN parser proved to invert a spec writer on every field tuple; MoveQuery::test contract; Lan writer "
+              "through core::fmt; UCI reader closure extracted verbatim and proved to invert Lan",
+    level_text="Proof, complete on the finite spelling domain: every admissible SAN field tuple is written by an in-harness spec "
+               "writer and the real parser must return exactly those fields; MoveQuery::test is proved equivalent to field-wise "
+               "agreement for symbolic query x symbolic move; so parse(SAN).test(m') <=> m' agrees with every spelled field. "
+               "Uniqueness among legal moves is C01's business.",
+    level_note="'matches no other legal move' relies on the spelling being admissible (its fields single out the move) and on C01. "
+               "Trusted: Kani/CBMC, the textual closure extractor (verbatim comparison).",
+)
+PROPS["C14"] = dict(
+    obligations=[
+        K("c12", "c14_san_total_8", kind="bounded", bound="<= 8 bytes", desc="San parser: no panic/overflow on every string of <= 8 bytes (ASCII plus one arbitrary "
+          "wide char anywhere)", functions=SAN, timeout=1500),
+        K("c12", "c14_san_total_14", desc="same for <= 14 bytes: the parser consumes at most 11 chars before its 'no more characters' "
+          "test rejects, so longer inputs add no behaviour", tier="thorough", functions=SAN, timeout=3000, heavy=True),
+        K("c12", "c14_square_file_rank_total", desc="File/Rank::from_char total and exact on all chars; Square::try_from(&str) total on "
+          "strings of <= 4 bytes", functions=["File::from_char", "Rank::from_char", "<Square as TryFrom<&str>>::try_from"]),
+        K("c14", "c14_fen_board_parser_total_12", kind="bounded", bound="<= 12 chars over the regex alphabet", desc="Board::try_parse: no panic, no overflow",
+          functions=["Board::try_parse"], timeout=1500),
+        K("c14", "c14_fen_board_parser_digits_40", desc="Board::try_parse on every digit string of <= 40 chars (the strings "
+          "that drive the u8 cursor highest): no overflow, no panic", functions=["Board::try_parse"], timeout=1500),
+        K("c14", "c14_fen_castle_field_total", desc="castle-field parser total on <= 5 ASCII bytes", functions=["ArrayMap<Color,CastleRights>::try_parse"]),
+        K("c14", "c14_fen_piece_letter_total", desc="PieceIndex::try_parse total and exact on all chars", functions=["PieceIndex::try_parse"]),
+        K("uci", "c14_uci_token_total", desc="the UCI move-token reader (extracted verbatim) is total on every string of <= 8 "
+          "bytes, ASCII plus one arbitrary wide char anywhere (it inspects bytes 0..4 and the 5th char only)", functions=["Client::exec move-token closure (extracted)"],
+          timeout=1500),
+    ],
+    assumptions=[],
+    technique="Kani/CBMC: panic/overflow freedom of every function the UCI loop hands user text to, on symbolic strings with "
+              "stated length bounds",
+    level_text="Proof with stated bounds: San parser, FEN placement/castle/piece parsers, Square/File/Rank readers and the UCI "
+               "move-token reader (extracted verbatim) are executed on symbolic text and shown free of panics and arithmetic "
+               "overflow; string length is bounded per obligation (bounds chosen above the point after which the code can "
+               "show no new behaviour).",
+    level_note="Not claimed: process liveness (the stdin loop with threads). Regex::captures and std integer parsing are assumed "
+               "total. Strings are ASCII plus at most one arbitrary wide char at an arbitrary position.",
+)
+
 def V(name, fns, desc, **kw):
     o = dict(name=name, backend="verus", kind="verus", tier="quick", desc=desc, functions=fns, verus_fns=[f.split("::")[-1] for f in fns],
              file="tt_contracts.rs")
@@ -225,5 +360,5 @@ NOT_APPLICABLE = {
            "(OS randomness, scheduling, RandomState) the property is about",
 }
 _PENDING = "check under construction in this commit of /verif; not claimed yet (see DESIGN.md section 4 for the plan)"
-for _p in ["C01", "C03", "C05", "C08", "C09", "C10", "C11", "C12", "C13", "C14", "C17"]:
+for _p in ["C01", "C03", "C09", "C10", "C11", "C13", "C17"]:
     NOT_APPLICABLE.setdefault(_p, _PENDING)
